@@ -119,9 +119,50 @@ def run(ctx):
         if not same and base[(d, t)].startswith("OK"):
             pfam.report(ctx, "spelling:" + name, {"kind": "input", "entry": "parse_statements", "dialect": d, "input": v, "reference": t, "observed": a[:400],
                                                   "oracle": "c03: the %s spelling must fill the same slots as the printed spelling" % name, "how_found": "stream spellings"})
+    name_slots(ctx, r.fork("name-slots"))
     for (d, t), (_, a, b) in list(zip(texts, res))[:4]:
         ctx.sample({"dialect": d, "text": t[:240], "impl": a[:160]})
     pfam.conclude(ctx, search)
+
+
+# where a table is named: (template, number of table slots)
+TABLE_SITES = ["SELECT x FROM {T} WHERE x > 1", "SELECT a.x FROM t0 a JOIN {T} b ON a.x = b.x", "SELECT x FROM (SELECT x FROM {T}) q", "WITH w AS (SELECT x FROM {T}) SELECT x FROM w",
+               "SELECT 1 AS x UNION ALL SELECT x FROM {T}", "INSERT INTO {T} (x) VALUES (1)", "INSERT INTO t0 SELECT x FROM {T}", "UPDATE {T} SET x = 1 WHERE y = 2",
+               "DELETE FROM {T} WHERE x = 1", "CREATE TABLE {T} (x int)", "DROP TABLE IF EXISTS {T}", "TRUNCATE TABLE {T}", "ALTER TABLE {T} ADD COLUMN y int",
+               "SELECT x FROM {T} t1 LEFT JOIN {T} t2 ON t1.x = t2.x", "SELECT x FROM t0 WHERE x IN (SELECT x FROM {T})"]
+
+
+def name_slots(ctx, r):
+    """the schema slot and the name slot of a table reference hold what the SPELLING denotes, at every site a table is named — written as text (the printer writes
+    schema and name inside ONE pair of back-quotes, so a tree with the dot in the wrong place prints the same text: no printed text can show it)"""
+    import canon
+    spell = []
+    for n in ("t", "T1", "tab_x", "x", "b"):
+        spell += [(n, None, n), ("`%s`" % n, None, n), ("`my %s`" % n, None, "my " + n)]
+        for s in ("s", "Db_1"):
+            spell += [("%s.%s" % (s, n), s, n), ("`%s`.`%s`" % (s, n), s, n), ("`%s`.%s" % (s, n), s, n), ("%s.`%s`" % (s, n), s, n),
+                      # a back-quoted name with exactly one dot is split at the dot (finding F-C06-5 / F-C14-1, which the printer relies on): written down as it behaves
+                      ("`%s.%s`" % (s, n), s, n)]
+    spell += [("`log.2024.01`", None, "log.2024.01"), ("`events.v1.2`", None, "events.v1.2"), ("`a.b.c.d`", None, "a.b.c.d"), ("`..`", None, ".."), ("s.`a.b.c`", "s", "a.b.c"),
+              ("`1.5.x`", None, "1.5.x"), ("`x..y`", None, "x..y")]
+    cases = []
+    for tmpl in TABLE_SITES:
+        for text, sch, nm in spell:
+            d = r.choice(DIALECTS)
+            if d == "HIVE" and tmpl.startswith("INSERT INTO {T} (x)"):
+                continue
+            cases.append((d, tmpl.replace("{T}", text), text, sch, nm, tmpl.count("{T}")))
+    res, _ = ctx.corr([pfam.req_parse(d, t) for d, t, _, _, _, _ in cases], stream="name-slots")
+    for (d, t, text, sch, nm, k), (_, a, _) in zip(cases, res):
+        if not a.startswith("OK"):
+            ctx.count("name-slots:rejected"); continue
+        want = 'ASTTableNameExpression{schema_name=%s,table_name="%s"}' % ("None" if sch is None else '"' + canon.q(sch) + '"', canon.q(nm))
+        ok_ = a.count(want) >= k
+        ctx.count("name-slots:" + ("as-written" if ok_ else "DIFFERENT"))
+        if not ok_:
+            pfam.report(ctx, "slot:table-name", {"kind": "input", "entry": "parse_statements", "dialect": d, "input": t, "reference": t, "spelling": text, "want": want, "observed": a[:500],
+                                                "oracle": "c03: the table reference %s denotes schema %r, table %r: the tree must hold exactly that in the schema / name slots" % (text, sch, nm),
+                                                "how_found": "stream name-slots"})
 
 
 def search(ctx):
@@ -132,6 +173,10 @@ def search(ctx):
 
 def replay(payload):
     d = payload["dialect"]
+    if "want" in payload:
+        a = E.run_impl([pfam.req_parse(d, payload["input"])])[0]
+        print(repr(payload["input"]), "\n ->", a[:400], "\n wanted:", payload["want"])
+        return 0 if payload["want"] in a else 1
     if "reference" in payload:
         a, b = E.run_impl([pfam.req_parse(d, payload["input"]), pfam.req_parse(d, payload["reference"])])
         print("spelling :", repr(payload["input"]), "\n ->", a[:300]); print("reference:", repr(payload["reference"]), "\n ->", b[:300])
